@@ -34,6 +34,13 @@
 //!        the tokens use) and the tokens; the encoder here assigns canonical codes with the next_code
 //!        algorithm of RFC 1951 3.2.2 (the model builds trees): obs = <cdata hex>|<read_to_end>
 //!
+//!   ms  block block ...                a frame whose CDATA are a multi-block DEFLATE stream given block by block
+//!        (s<hex> stored | f<tokens> fixed | d<nlen>;<ndist>;<clvals>;<items>;<tokens> dynamic with the full
+//!        header: HCLEN + 4 = |clvals| code-length code lengths in the permuted order, the literal/length and
+//!        distance code lengths run-length coded by items l<len> | c<n> (16) | z<n> (17) | y<n> (18)); BFINAL
+//!        on the last block; matches may reach into earlier blocks.  The model's `deflate_blocks`
+//!        (NV.Bgzf.InflateSpec), re-implemented here: obs = <cdata hex>|<read_to_end>
+//!
 //! The model's reader uses its own (Gallina, extracted) inflater for every frame of every wr / rd /
 //! rdbig case; level-0 CDATA are produced by the model's own `deflate_stored`.  The table only
 //! carries what zlib-rs produced at levels 1..9.
@@ -1142,6 +1149,537 @@ fn gen_dy(rng: &mut Rng, w: &mut CaseWriter, n: usize) {
     }
 }
 
+// -------------------------------------------------------------------------------------------
+// kind ms: multi-block DEFLATE streams (the model's NV.Bgzf.InflateSpec.deflate_blocks, re-implemented)
+
+/// one entry of the run-length coded code-length sequence of a dynamic header (RFC 1951 3.2.7)
+#[derive(Clone, Copy, Debug)]
+enum ClItem {
+    /// symbol 0..15: one code length
+    Len(usize),
+    /// symbol 16: repeat the previous length 3..6 times (2 extra bits)
+    Rep16(usize),
+    /// symbol 17: 3..10 zeros (3 extra bits)
+    Rep17(usize),
+    /// symbol 18: 11..138 zeros (7 extra bits)
+    Rep18(usize),
+}
+
+#[derive(Clone, Debug)]
+struct DynHdr {
+    /// HLIT + 257
+    nlen: usize,
+    /// HDIST + 1
+    ndist: usize,
+    /// HCLEN + 4 code lengths of the code-length alphabet, in the permuted order
+    clvals: Vec<usize>,
+    /// the nlen + ndist code lengths (literal/length then distance, one sequence)
+    items: Vec<ClItem>,
+}
+
+#[derive(Clone)]
+enum Block {
+    Stored(Vec<u8>),
+    Fixed(Vec<Tok>),
+    Dynamic(DynHdr, Vec<Tok>),
+}
+
+const CL_ORDER: [usize; 19] = [16, 17, 18, 0, 8, 7, 9, 6, 10, 5, 11, 4, 12, 3, 13, 2, 14, 1, 15];
+
+impl ClItem {
+    fn symbol(&self) -> usize {
+        match *self {
+            ClItem::Len(l) => l,
+            ClItem::Rep16(_) => 16,
+            ClItem::Rep17(_) => 17,
+            ClItem::Rep18(_) => 18,
+        }
+    }
+}
+
+/// the code lengths a list of items stands for (a repeat before any length repeats 0)
+fn cl_expand(items: &[ClItem]) -> Vec<usize> {
+    let mut acc: Vec<usize> = Vec::new();
+    for it in items {
+        match *it {
+            ClItem::Len(l) => acc.push(l),
+            ClItem::Rep16(n) => {
+                let p = acc.last().copied().unwrap_or(0);
+                acc.extend(std::iter::repeat(p).take(n));
+            }
+            ClItem::Rep17(n) | ClItem::Rep18(n) => acc.extend(std::iter::repeat(0).take(n)),
+        }
+    }
+    acc
+}
+
+/// the canonical code of `sym` (nothing when the symbol has no code)
+fn put_sym(w: &mut BitW, codes: &[u32], lens: &[usize], sym: usize) {
+    if let Some(&l) = lens.get(sym) {
+        w.code(codes[sym], l as u32);
+    }
+}
+
+/// tokens, then end-of-block, under the canonical codes of the code lengths ll / dl
+fn put_body(w: &mut BitW, ll: &[usize], dl: &[usize], ts: &[Tok]) {
+    let (lc, dc) = (canonical_codes(ll), canonical_codes(dl));
+    for t in ts {
+        match *t {
+            Tok::Lit(b) => put_sym(w, &lc, ll, b as usize),
+            Tok::Match(len, dist) => {
+                let (ls, ds) = tok_symbols(t);
+                let ds = ds.unwrap();
+                put_sym(w, &lc, ll, ls);
+                w.bits((len - T_LENS[ls - 257]) as u32, T_LEXT[ls - 257]);
+                put_sym(w, &dc, dl, ds);
+                w.bits((dist - T_DISTS[ds]) as u32, T_DEXT[ds]);
+            }
+        }
+    }
+    put_sym(w, &lc, ll, 256);
+}
+
+/// RFC 1951: the blocks one after the other, BFINAL on the last one only; stored blocks start their
+/// LEN at the next byte boundary (zero padding); a dynamic header is written exactly as described
+/// (HLIT, HDIST, HCLEN, the 3-bit lengths, the run-length coded lengths)
+fn deflate_blocks(bs: &[Block]) -> Vec<u8> {
+    let mut w = BitW::new();
+    for (i, b) in bs.iter().enumerate() {
+        w.bits((i + 1 == bs.len()) as u32, 1);
+        match b {
+            Block::Stored(chunk) => {
+                w.bits(0, 2);
+                while w.n != 0 {
+                    w.put(0);
+                }
+                let n = chunk.len() as u32;
+                w.bits(n, 16);
+                w.bits(65535 - n, 16);
+                for &x in chunk {
+                    w.bits(x as u32, 8);
+                }
+            }
+            Block::Fixed(ts) => {
+                w.bits(1, 2);
+                for t in ts {
+                    match *t {
+                        Tok::Lit(b) => w.litlen(b as u32),
+                        Tok::Match(len, dist) => {
+                            let i = T_LENS.iter().rposition(|&b| b <= len).unwrap();
+                            w.litlen(257 + i as u32);
+                            w.bits((len - T_LENS[i]) as u32, T_LEXT[i]);
+                            let j = T_DISTS.iter().rposition(|&b| b <= dist).unwrap();
+                            w.code(j as u32, 5);
+                            w.bits((dist - T_DISTS[j]) as u32, T_DEXT[j]);
+                        }
+                    }
+                }
+                w.litlen(256);
+            }
+            Block::Dynamic(h, ts) => {
+                w.bits(2, 2);
+                w.bits((h.nlen - 257) as u32, 5);
+                w.bits((h.ndist - 1) as u32, 5);
+                w.bits((h.clvals.len() - 4) as u32, 4);
+                for &v in &h.clvals {
+                    w.bits(v as u32, 3);
+                }
+                // the code-length code: the values put back in symbol order, missing ones 0
+                let mut cll = [0usize; 19];
+                for (k, &v) in h.clvals.iter().enumerate().take(19) {
+                    cll[CL_ORDER[k]] = v;
+                }
+                let clc = canonical_codes(&cll);
+                for it in &h.items {
+                    put_sym(&mut w, &clc, &cll, it.symbol());
+                    match *it {
+                        ClItem::Len(_) => {}
+                        ClItem::Rep16(n) => w.bits((n - 3) as u32, 2),
+                        ClItem::Rep17(n) => w.bits((n - 3) as u32, 3),
+                        ClItem::Rep18(n) => w.bits((n - 11) as u32, 7),
+                    }
+                }
+                let lens = cl_expand(&h.items);
+                let cut = h.nlen.min(lens.len());
+                put_body(&mut w, &lens[..cut], &lens[cut..], ts);
+            }
+        }
+    }
+    w.finish()
+}
+
+fn expand_tokens_onto(out: &mut Vec<u8>, ts: &[Tok]) {
+    for t in ts {
+        match *t {
+            Tok::Lit(b) => out.push(b),
+            Tok::Match(len, dist) => {
+                for _ in 0..len {
+                    out.push(out[out.len() - dist]);
+                }
+            }
+        }
+    }
+}
+
+/// what the whole stream stands for
+fn stream_out(bs: &[Block]) -> Vec<u8> {
+    let mut out = Vec::new();
+    for b in bs {
+        match b {
+            Block::Stored(chunk) => out.extend_from_slice(chunk),
+            Block::Fixed(ts) | Block::Dynamic(_, ts) => expand_tokens_onto(&mut out, ts),
+        }
+    }
+    out
+}
+
+fn items_str(items: &[ClItem]) -> String {
+    if items.is_empty() {
+        return "-".into();
+    }
+    items
+        .iter()
+        .map(|it| match it {
+            ClItem::Len(l) => format!("l{l}"),
+            ClItem::Rep16(n) => format!("c{n}"),
+            ClItem::Rep17(n) => format!("z{n}"),
+            ClItem::Rep18(n) => format!("y{n}"),
+        })
+        .collect::<Vec<_>>()
+        .join(",")
+}
+
+fn block_str(b: &Block) -> String {
+    match b {
+        Block::Stored(chunk) => format!("s{}", hex(chunk)),
+        Block::Fixed(ts) => format!("f{}", tokens_str(ts)),
+        Block::Dynamic(h, ts) => {
+            format!("d{};{};{};{};{}", h.nlen, h.ndist, nats_str(&h.clvals), items_str(&h.items), tokens_str(ts))
+        }
+    }
+}
+
+fn parse_block(s: &str) -> Block {
+    let rest = &s[1..];
+    match s.as_bytes()[0] {
+        b's' => Block::Stored(unhex(rest)),
+        b'f' => Block::Fixed(parse_tokens(rest)),
+        b'd' => {
+            let p: Vec<&str> = rest.split(';').collect();
+            assert!(p.len() == 5, "bad dynamic block {s}");
+            let nats = |s: &str| -> Vec<usize> { if s == "-" { vec![] } else { s.split(',').map(|x| x.parse().unwrap()).collect() } };
+            let items = if p[3] == "-" {
+                vec![]
+            } else {
+                p[3].split(',')
+                    .map(|t| {
+                        let n: usize = t[1..].parse().unwrap();
+                        match t.as_bytes()[0] {
+                            b'l' => ClItem::Len(n),
+                            b'c' => ClItem::Rep16(n),
+                            b'z' => ClItem::Rep17(n),
+                            b'y' => ClItem::Rep18(n),
+                            _ => panic!("bad item {t}"),
+                        }
+                    })
+                    .collect()
+            };
+            Block::Dynamic(DynHdr { nlen: p[0].parse().unwrap(), ndist: p[1].parse().unwrap(), clvals: nats(p[2]), items }, parse_tokens(p[4]))
+        }
+        _ => panic!("bad block {s}"),
+    }
+}
+
+fn push_ms(w: &mut CaseWriter, bs: &[Block]) {
+    w.push("ms", bs.iter().map(block_str).collect());
+}
+
+/// random valid tokens appended to the output so far (`out` is extended by their expansion): matches
+/// may reach back into what earlier blocks produced
+fn random_tokens_onto(rng: &mut Rng, out: &mut Vec<u8>, target: usize) -> Vec<Tok> {
+    let mut ts = Vec::new();
+    let start = out.len();
+    while out.len() - start < target {
+        let have = out.len();
+        if have == 0 || rng.chance(1, 2) {
+            let b = if rng.chance(1, 3) { rng.next() as u8 } else { b'a' + rng.below(6) as u8 };
+            ts.push(Tok::Lit(b));
+            out.push(b);
+        } else {
+            let len = match rng.below(5) {
+                0 => rng.range(3, 10) as usize,
+                1 => *rng.pick(&T_LENS),
+                2 | 3 => rng.range(3, 40) as usize,
+                _ => rng.range(3, 258) as usize,
+            };
+            let dist = match rng.below(4) {
+                0 => rng.range(1, 4.min(have as u64)) as usize,
+                1 => have,
+                // at least back to the first byte of this block, i.e. into the earlier blocks when there are any
+                2 => rng.range((have - start).max(1) as u64, have as u64) as usize,
+                _ => rng.range(1, have as u64) as usize,
+            };
+            let t = Tok::Match(len, dist.min(32768));
+            expand_tokens_onto(out, &[t]);
+            ts.push(t);
+        }
+    }
+    ts
+}
+
+/// a run-length coding of `lens` with random choices between the repeat codes and plain lengths
+fn rle_items(rng: &mut Rng, lens: &[usize]) -> Vec<ClItem> {
+    let mut items = Vec::new();
+    let mut i = 0usize;
+    while i < lens.len() {
+        let v = lens[i];
+        let r = lens[i..].iter().take_while(|&&x| x == v).count();
+        if v == 0 && r >= 3 {
+            let c = rng.below(10);
+            if r >= 11 && c < 6 {
+                let n = if rng.chance(1, 2) { 138.min(r) } else { rng.range(11, 138.min(r) as u64) as usize };
+                items.push(ClItem::Rep18(n));
+                i += n;
+                continue;
+            }
+            if c < 8 {
+                let n = if rng.chance(1, 2) { 10.min(r) } else { rng.range(3, 10.min(r) as u64) as usize };
+                items.push(ClItem::Rep17(n));
+                i += n;
+                continue;
+            }
+        }
+        if i > 0 && lens[i - 1] == v && r >= 3 && rng.chance(3, 4) {
+            let n = if rng.chance(1, 2) { 6.min(r) } else { rng.range(3, 6.min(r) as u64) as usize };
+            items.push(ClItem::Rep16(n));
+            i += n;
+            continue;
+        }
+        items.push(ClItem::Len(v));
+        i += 1;
+    }
+    items
+}
+
+/// how many of the 19 code-length code lengths a header sends
+#[derive(Clone, Copy)]
+enum Keep {
+    /// up to the last non-zero one (at least 4)
+    Min,
+    /// sometimes a few more zeros
+    Random,
+    /// all 19
+    All,
+}
+
+/// a header around the given items: a random complete code-length code over the code-length symbols
+/// the items use (plus `extra` unused ones; at least 2 symbols)
+fn make_hdr(rng: &mut Rng, nlen: usize, ndist: usize, items: Vec<ClItem>, extra: usize, keep: Keep) -> DynHdr {
+    let mut syms: Vec<usize> = items.iter().map(|it| it.symbol()).collect();
+    for _ in 0..extra {
+        syms.push(rng.below(19) as usize);
+    }
+    syms.sort();
+    syms.dedup();
+    while syms.len() < 2 {
+        let s = rng.below(19) as usize;
+        if !syms.contains(&s) {
+            syms.push(s);
+        }
+    }
+    let cll = random_code_lengths(rng, &syms, 7, 19);
+    let mut clvals: Vec<usize> = CL_ORDER.iter().map(|&o| cll[o]).collect();
+    let min = clvals.iter().rposition(|&v| v != 0).map(|p| p + 1).unwrap_or(0).max(4);
+    let n = match keep {
+        Keep::Min => min,
+        Keep::All => 19,
+        Keep::Random => match rng.below(8) {
+            0 => 19,
+            1 | 2 => rng.range(min as u64, 19) as usize,
+            _ => min,
+        },
+    };
+    clvals.truncate(n);
+    DynHdr { nlen, ndist, clvals, items }
+}
+
+/// a random dynamic header under which the tokens can be coded: complete literal/length and distance
+/// codes around the symbols used (a single symbol gets a 1-bit code, no distance symbol = all zero)
+fn random_dyn_hdr(rng: &mut Rng, ts: &[Tok]) -> DynHdr {
+    let mut lsyms = vec![256usize];
+    let mut dsyms: Vec<usize> = vec![];
+    for t in ts {
+        let (l, d) = tok_symbols(t);
+        lsyms.push(l);
+        if let Some(d) = d {
+            dsyms.push(d);
+        }
+    }
+    if rng.chance(3, 4) {
+        for _ in 0..rng.below(40) {
+            lsyms.push(rng.below(286) as usize);
+        }
+    }
+    if rng.chance(1, 2) {
+        for _ in 0..rng.below(6) {
+            dsyms.push(rng.below(30) as usize);
+        }
+    }
+    lsyms.sort();
+    lsyms.dedup();
+    dsyms.sort();
+    dsyms.dedup();
+    let lmin = (lsyms.last().unwrap() + 1).max(257);
+    let dmin = dsyms.last().map(|d| d + 1).unwrap_or(1);
+    let nlen = if rng.chance(1, 3) { lmin } else { lmin.max(rng.range(257, 286) as usize) };
+    let ndist = if rng.chance(1, 3) { dmin } else { dmin.max(rng.range(1, 30) as usize) };
+    let mut lens = random_code_lengths(rng, &lsyms, 15, nlen);
+    lens.extend(random_code_lengths(rng, &dsyms, 15, ndist));
+    let items = rle_items(rng, &lens);
+    let extra = if rng.chance(1, 3) { rng.range(1, 4) as usize } else { 0 };
+    make_hdr(rng, nlen, ndist, items, extra, Keep::Random)
+}
+
+fn gen_ms(rng: &mut Rng, w: &mut CaseWriter, n: usize) {
+    use ClItem::{Len as L, Rep16 as C, Rep17 as Z, Rep18 as Y};
+    let lits = |s: &[u8]| -> Vec<Tok> { s.iter().map(|&b| Tok::Lit(b)).collect() };
+    // --- directed: the three block types alone and in sequence
+    push_ms(w, &[Block::Stored(b"abc".to_vec())]);
+    push_ms(w, &[Block::Stored(vec![])]);
+    push_ms(w, &[Block::Fixed(vec![])]);
+    push_ms(w, &[Block::Stored(b"ab".to_vec()), Block::Stored(b"cd".to_vec())]);
+    push_ms(w, &[Block::Stored(vec![]), Block::Stored(vec![]), Block::Stored(b"x".to_vec())]);
+    // the sync-flush pattern (an empty stored block in the middle), then a match into block 1
+    push_ms(
+        w,
+        &[Block::Fixed(lits(b"a")), Block::Stored(vec![]), Block::Fixed(vec![Tok::Match(5, 1), Tok::Lit(b'b'), Tok::Match(4, 7), Tok::Match(3, 2)])],
+    );
+    // two dynamic blocks with different codes, the second one copying from the first
+    {
+        let t1 = vec![Tok::Lit(b'a'), Tok::Lit(b'b'), Tok::Lit(b'c'), Tok::Match(6, 3)];
+        let t2 = vec![Tok::Lit(b'd'), Tok::Match(5, 4), Tok::Match(3, 1), Tok::Match(9, 15), Tok::Lit(0xff)];
+        let (h1, h2) = (random_dyn_hdr(rng, &t1), random_dyn_hdr(rng, &t2));
+        push_ms(w, &[Block::Dynamic(h1, t1), Block::Dynamic(h2, t2)]);
+    }
+    // a stored block, then a dynamic block copying from all over it
+    {
+        let chunk = payload(rng, 1, 300);
+        let ts = vec![Tok::Match(10, 300), Tok::Match(258, 150), Tok::Lit(7), Tok::Match(3, 1), Tok::Match(20, 311), Tok::Match(4, 592), Tok::Match(3, 257)];
+        let h = random_dyn_hdr(rng, &ts);
+        push_ms(w, &[Block::Stored(chunk), Block::Dynamic(h, ts)]);
+    }
+    // --- directed dynamic headers (items written out by hand; codes complete or a single 1-bit code)
+    // c6 in the literal/length lengths, c3 in the distance lengths
+    // (literals 97..103: 3 bits, end-of-block and length symbol 257: 4 bits; four 2-bit distance codes)
+    let h = make_hdr(rng, 258, 4, vec![Y(97), L(3), C(6), Y(138), Y(14), L(4), L(4), L(2), C(3)], 0, Keep::Min);
+    push_ms(w, &[Block::Dynamic(h, vec![Tok::Lit(97), Tok::Lit(98), Tok::Match(3, 1), Tok::Match(3, 2), Tok::Match(3, 4), Tok::Lit(103), Tok::Match(3, 3)])]);
+    // z3 and z10; the same with all 19 code-length code lengths sent (trailing zeros kept)
+    let items = vec![L(2), Z(3), L(2), Z(10), L(2), Y(138), Y(102), L(2), L(0)];
+    for keep in [Keep::Min, Keep::All] {
+        let h = make_hdr(rng, 257, 1, items.clone(), 0, keep);
+        push_ms(w, &[Block::Dynamic(h, lits(&[0, 4, 15, 0]))]);
+    }
+    // y11 and y138
+    let h = make_hdr(rng, 257, 1, vec![Y(11), L(1), Y(138), L(2), Y(105), L(2), L(0)], 0, Keep::Min);
+    push_ms(w, &[Block::Dynamic(h, lits(&[11, 150, 11]))]);
+    // a c6 that starts in the literal/length lengths (255 given; 256, 257) and ends in the distance lengths
+    // (symbols 97, 255, 256, 257: 2 bits; four 2-bit distance codes)
+    let h = make_hdr(rng, 258, 4, vec![Y(97), L(2), Y(138), Y(19), L(2), C(6)], 0, Keep::Min);
+    push_ms(w, &[Block::Dynamic(h, vec![Tok::Lit(97), Tok::Lit(255), Tok::Match(3, 2), Tok::Match(3, 4), Tok::Lit(255), Tok::Match(3, 1)])]);
+    // a y21 covering the last 12 literal/length lengths and the first 9 distance lengths (one distance
+    // code, symbol 9, of 1 bit)
+    let h = make_hdr(rng, 270, 10, vec![Y(97), L(1), Y(138), Y(20), L(2), L(2), Y(21), L(1)], 0, Keep::Min);
+    let mut ts = lits(&[97; 30]);
+    ts.extend([Tok::Match(3, 25), Tok::Match(3, 32)]);
+    push_ms(w, &[Block::Dynamic(h, ts)]);
+    // a z4 covering the last 3 literal/length lengths and the only (zero) distance length
+    let h = make_hdr(rng, 260, 1, vec![Y(97), L(1), Y(138), Y(20), L(1), Z(4)], 0, Keep::Min);
+    push_ms(w, &[Block::Dynamic(h, lits(&[97, 97]))]);
+    // the smallest HCLEN a header with an end-of-block code can have: code-length symbols 16, 0, 8 only
+    // (HCLEN + 4 = 5); 256 literal/length codes of 8 bits
+    let mut items = vec![L(8)];
+    items.extend([C(6); 42]);
+    items.extend([L(8), L(8), L(0), L(8), L(0)]);
+    let h = make_hdr(rng, 257, 1, items, 0, Keep::Min);
+    push_ms(w, &[Block::Dynamic(h, lits(b"noodles\x00\xfe"))]);
+    // no tokens: only the end-of-block code (a single 1-bit code); alone and followed by a block
+    let h = make_hdr(rng, 257, 1, vec![Y(138), Y(118), L(1), L(0)], 0, Keep::Min);
+    push_ms(w, &[Block::Dynamic(h.clone(), vec![])]);
+    push_ms(w, &[Block::Dynamic(h, vec![]), Block::Fixed(lits(b"a"))]);
+    // code lengths 1..15 (symbol 15 is the last of the permuted order: HCLEN + 4 = 19 is forced)
+    let mut items: Vec<ClItem> = (1..=15).map(L).collect();
+    items.extend([Y(138), Y(103), L(15), L(0)]);
+    let h = make_hdr(rng, 257, 1, items, 0, Keep::Min);
+    push_ms(w, &[Block::Dynamic(h, lits(&[0, 14, 7, 13]))]);
+    // --- the padding of a stored block takes every value: k 9-bit literals put it at bit (2 + k) mod 8
+    for k in 0..8 {
+        push_ms(
+            w,
+            &[Block::Fixed(lits(&vec![200u8; k])), Block::Stored(b"xyz".to_vec()), Block::Fixed(vec![Tok::Match(3, 3), Tok::Lit(33), Tok::Match(4, k + 7)])],
+        );
+    }
+    // --- bigger ones: about 40000 bytes through three blocks; one stored block filling the CDATA
+    {
+        let mut out = payload(rng, 1, 15000);
+        let b1 = Block::Stored(out.clone());
+        let mut t2 = Vec::new();
+        for i in 0..50 {
+            let d = match i % 4 {
+                0 => 1,
+                1 => 15000,
+                2 => 5000,
+                _ => rng.range(1, out.len() as u64) as usize,
+            };
+            t2.push(Tok::Match(258, d));
+            if i % 7 == 0 {
+                t2.push(Tok::Lit(rng.next() as u8));
+            }
+        }
+        expand_tokens_onto(&mut out, &t2);
+        let mut t3 = Vec::new();
+        while out.len() < 40000 {
+            let t = if rng.chance(1, 4) {
+                Tok::Lit(b'a' + rng.below(20) as u8)
+            } else {
+                Tok::Match(rng.range(200, 258) as usize, (rng.range(1, out.len() as u64) as usize).min(32768))
+            };
+            expand_tokens_onto(&mut out, &[t]);
+            t3.push(t);
+        }
+        let h = random_dyn_hdr(rng, &t3);
+        push_ms(w, &[b1, Block::Fixed(t2), Block::Dynamic(h, t3)]);
+        push_ms(w, &[Block::Stored(payload(rng, 2, MAX_CDATA - 5))]);
+    }
+    // --- random streams
+    for _ in 0..n {
+        let nblocks = rng.range(1, 5) as usize;
+        let mut out: Vec<u8> = Vec::new();
+        let mut bs = Vec::new();
+        for _ in 0..nblocks {
+            let target = match rng.below(4) {
+                0 => 0,
+                1 => rng.range(1, 20) as usize,
+                _ => rng.range(20, 600) as usize,
+            };
+            match rng.below(3) {
+                0 => {
+                    let class = rng.below(3);
+                    let chunk = payload(rng, class, target.min(300));
+                    out.extend_from_slice(&chunk);
+                    bs.push(Block::Stored(chunk));
+                }
+                1 => bs.push(Block::Fixed(random_tokens_onto(rng, &mut out, target))),
+                _ => {
+                    let ts = random_tokens_onto(rng, &mut out, target);
+                    let h = random_dyn_hdr(rng, &ts);
+                    bs.push(Block::Dynamic(h, ts));
+                }
+            }
+        }
+        push_ms(w, &bs);
+    }
+}
+
 fn gen_fx(rng: &mut Rng, w: &mut CaseWriter, n: usize) {
     w.push("fx", vec![hex(&[])]);
     w.push("fx", vec![hex(b"noodles")]);
@@ -1278,6 +1816,7 @@ fn generate(rng: &mut Rng, tier: &str, w: &mut CaseWriter) {
     gen_fx(rng, w, 40 * mul as usize);
     gen_tk(rng, w, 60 * mul as usize);
     gen_dy(rng, w, 80 * mul as usize);
+    gen_ms(rng, w, if thorough { 530 } else { 40 });
 }
 
 // -------------------------------------------------------------------------------------------
@@ -1470,6 +2009,46 @@ fn run_tk(c: &Case) -> Obs {
     }
 }
 
+fn run_ms(c: &Case) -> Obs {
+    let bs: Vec<Block> = c.args.iter().map(|s| parse_block(s)).collect();
+    let x = stream_out(&bs);
+    let cd = deflate_blocks(&bs);
+    if x.len() > 65536 || cd.len() > MAX_CDATA {
+        return Obs { obs: "-".into(), verdict: "skip".into(), nontrivial: false };
+    }
+    let mut s = make_frame(&cd, &x);
+    s.extend(gz::EOF_BLOCK);
+    let (rd_obs, rd) = read_back(&s);
+    let obs = format!("{}|{}", hex(&cd), rd_obs);
+    let shape: String = bs
+        .iter()
+        .map(|b| match b {
+            Block::Stored(_) => 's',
+            Block::Fixed(_) => 'f',
+            Block::Dynamic(..) => 'd',
+        })
+        .collect();
+    // the encoder above against two inflaters that are neither noodles nor the model
+    match gz::inflate_raw(&cd, x.len() + 1) {
+        Ok((d, used)) if d == x && used == cd.len() => {}
+        Ok((d, used)) => {
+            return Obs::fail(obs, "multiblock-encoder-bug", format!("blocks {shape}: the independent inflater gets {} bytes from {used} of {} stream bytes, expansion is {} bytes", d.len(), cd.len(), x.len()));
+        }
+        Err(e) => return Obs::fail(obs, "multiblock-encoder-bug", format!("blocks {shape}: the independent inflater rejects the {}-byte stream: {e}", cd.len())),
+    }
+    match guarded(AssertUnwindSafe(|| flate2_inflate(&cd))) {
+        Outcome::Done(Some(d)) if d == x => {}
+        Outcome::Done(Some(d)) => return Obs::fail(obs, "multiblock-encoder-bug", format!("blocks {shape}: flate2 inflates the stream to {} bytes, expansion is {} bytes", d.len(), x.len())),
+        Outcome::Done(None) => return Obs::fail(obs, "multiblock-encoder-bug", format!("blocks {shape}: flate2 rejects the {}-byte stream", cd.len())),
+        Outcome::Panicked(m) => return Obs::fail(obs, "multiblock-encoder-bug", format!("blocks {shape}: flate2 panics: {m}")),
+    }
+    match rd {
+        Ok(d) if d == x => Obs::ok(obs, false),
+        Ok(d) => Obs::fail(obs, "multiblock-stream-mismatch", format!("the reader returned {} bytes for a stream of blocks {shape} that expands to {}", d.len(), x.len())),
+        Err(e) => Obs::fail(obs, "multiblock-stream-rejected", format!("the reader rejects a stream of blocks {shape} ({} bytes, expands to {}): {e}", cd.len(), x.len())),
+    }
+}
+
 fn run_inf(c: &Case) -> Obs {
     let cd = c.b(0);
     let limit: usize = c.args[1].parse().unwrap();
@@ -1498,6 +2077,7 @@ fn run(c: &Case) -> Obs {
         "inf" => run_inf(c),
         "fx" => run_fx(c),
         "tk" | "dy" => run_tk(c),
+        "ms" => run_ms(c),
         "rd" => run_rd(c),
         "rdbig" => run_rdbig(c),
         _ => Obs {
